@@ -36,6 +36,14 @@ def r_sweep(repo, tier):
             ivar = s.targets[0].id if isinstance(s.targets[0], ast.Name) else None
             a0 = s.value.args[0] if s.value.args else None
             cur = a0.id if isinstance(a0, ast.Name) else None
+        elif nd.kind == "test" and s is not None and hasattr(s, "test"):
+            # `while (i := p.read_instruction(loc)) is not None:` -- the loop test is the fetch
+            for w in ast.walk(s.test):
+                if isinstance(w, ast.NamedExpr) and isinstance(w.value, ast.Call) and isinstance(w.value.func, ast.Attribute) and w.value.func.attr == "read_instruction":
+                    fetch = nd
+                    ivar = w.target.id
+                    a0 = w.value.args[0] if w.value.args else None
+                    cur = a0.id if isinstance(a0, ast.Name) else None
     if fetch is None or ivar is None or cur is None:
         raise AnalysisError("R-SWEEP: fetch statement `i = p.read_instruction(loc)` not found in lsweep.sequence")
 
@@ -93,7 +101,7 @@ def r_sweep(repo, tier):
                 continue
             seen.add(k)
             work.append((m, o))
-    out.inst(f.key, {"fetch": norm(fetch.ast), "cursor": cur, "instruction": ivar, "paths_back_to_fetch": sorted(set(results))})
+    out.inst(f.key, {"fetch": norm(fetch.ast.test if fetch.kind == "test" else fetch.ast), "cursor": cur, "instruction": ivar, "paths_back_to_fetch": sorted(set(results))})
     if not results:
         out.report(LSWEEP, f.dqual, "no path back to the fetch", fetch.line, "the sweep loop never fetches a second instruction")
     for a, y, bad in sorted(set(results)):
@@ -137,11 +145,27 @@ def r_blocks(repo, tier):
     if loop is None:
         raise AnalysisError("R-XFER: sweep loop not found in lsweep.iterblocks")
     ivar = loop.target.id
+
+    def _acc_of(lp, iv):
+        for x in ast.walk(lp):
+            if isinstance(x, ast.Call) and isinstance(x.func, ast.Attribute) and x.func.attr == "append" and x.args and isinstance(x.args[0], ast.Name) and x.args[0].id == iv and isinstance(x.func.value, ast.Name):
+                return x.func.value.id
+        return None
+
     # accumulator: the list that receives `.append(ivar)`
-    acc = None
-    for x in ast.walk(loop):
-        if isinstance(x, ast.Call) and isinstance(x.func, ast.Attribute) and x.func.attr == "append" and x.args and isinstance(x.args[0], ast.Name) and x.args[0].id == ivar and isinstance(x.func.value, ast.Name):
-            acc = x.func.value.id
+    acc = _acc_of(loop, ivar)
+    if acc is None:
+        # the grouping may live in a generator method of the class that iterblocks iterates (`for run in self._runs(seq)`):
+        # the same obligations are then checked on that generator, where a closed run is handed over by `yield`
+        cls = repo.mod(LSWEEP).classes.get("lsweep")
+        for c in ast.walk(loop.iter):
+            if isinstance(c, ast.Call) and isinstance(c.func, ast.Attribute) and isinstance(c.func.value, ast.Name) and c.func.value.id in ("self", "cls") and cls is not None and c.func.attr in cls.methods and c.func.attr != "sequence":
+                h = cls.methods[c.func.attr]
+                hl = xfer.find_loop(h.node, lambda n: isinstance(n, ast.For) and isinstance(n.target, ast.Name) and isinstance(n.iter, ast.Name) and n.iter.id in h.params())
+                if hl is not None and any(isinstance(y, ast.Yield) for y in ast.walk(h.node)) and _acc_of(hl, hl.target.id):
+                    f, fn, loop, ivar = h, h.node, hl, hl.target.id
+                    acc = _acc_of(hl, ivar)
+                    break
     if acc is None:
         out.inst(f.key, {"loop": norm(loop).split(":")[0]})
         out.report(LSWEEP, f.dqual, "no append of %s" % ivar, loop.lineno, "no statement appends the swept instruction to a block accumulator")
@@ -152,8 +176,23 @@ def r_blocks(repo, tier):
         out.report(LSWEEP, f.dqual, "instruction not appended", loop.lineno, "a path through the sweep loop does not append the instruction to the block accumulator %s: %s" % (acc, p))
     # hand-over before reset
     cfg = CFG(fn, may_raise=lambda x: False)
-    resets = [nd for nd in cfg.nodes if nd.kind == "stmt" and isinstance(nd.ast, ast.Assign) and any(isinstance(t, ast.Name) and t.id == acc for t in nd.ast.targets) and isinstance(nd.ast.value, ast.List) and not nd.ast.value.elts]
+    def _swap(s0):
+        """`run, acc = acc, []` -> 'run' (the name that receives the accumulator while it is emptied)"""
+        if isinstance(s0, ast.Assign) and len(s0.targets) == 1 and isinstance(s0.targets[0], ast.Tuple) and isinstance(s0.value, ast.Tuple) and len(s0.targets[0].elts) == len(s0.value.elts):
+            got = emptied = None
+            for t, v in zip(s0.targets[0].elts, s0.value.elts):
+                if isinstance(t, ast.Name) and isinstance(v, ast.Name) and v.id == acc and t.id != acc:
+                    got = t.id
+                if isinstance(t, ast.Name) and t.id == acc and isinstance(v, ast.List) and not v.elts:
+                    emptied = True
+            if got and emptied:
+                return got
+        return None
+
+    resets = [nd for nd in cfg.nodes if nd.kind == "stmt" and ((isinstance(nd.ast, ast.Assign) and any(isinstance(t, ast.Name) and t.id == acc for t in nd.ast.targets) and isinstance(nd.ast.value, ast.List) and not nd.ast.value.elts) or _swap(nd.ast))]
     def _uses_acc(call):
+        if isinstance(call, ast.Name) and call.id == acc:
+            return True   # the accumulator itself is handed over (`yield pending`)
         return isinstance(call, ast.Call) and any(isinstance(a, ast.Name) and a.id == acc for a in call.args)
 
     # a block is "built" by any call that takes the accumulator (code.block(l), or a helper such as self._newblock(l)),
@@ -164,7 +203,7 @@ def r_blocks(repo, tier):
         s0 = nd.ast
         if nd.kind != "stmt" or s0 is None:
             continue
-        if isinstance(s0, ast.Assign) and _uses_acc(s0.value):
+        if isinstance(s0, ast.Assign) and (_uses_acc(s0.value) or _swap(s0)):
             builds.append(nd)
         elif isinstance(s0, ast.Expr) and isinstance(s0.value, ast.Yield) and _uses_acc(s0.value.value):
             builds.append(nd)
@@ -187,7 +226,7 @@ def r_blocks(repo, tier):
         if b.id in direct:
             out.inst(f.key + "::build@%d" % b.line, {"build": norm(b.ast), "yielded_on_all_paths": True})
             continue
-        bv = b.ast.targets[0].id if isinstance(b.ast.targets[0], ast.Name) else None
+        bv = _swap(b.ast) or (b.ast.targets[0].id if isinstance(b.ast.targets[0], ast.Name) else None)
         ys = yields.get(bv, set())
         # from the build, every path to the loop head / exit passes a yield of the block
         p = cfg.some_path(b, {head.id, cfg.exit.id}, avoid=ys)
@@ -217,12 +256,24 @@ def r_blocks(repo, tier):
     g = repo.func(CODE, "block.__getitem__")
     l2 = xfer.find_loop(g.node, lambda n: isinstance(n, ast.For) and norm(n.iter) == "self.instr")
     if l2 is None:
-        raise AnalysisError("R-XFER: position loop vanished in block.__getitem__")
-    xv = {n.id for n in ast.walk(l2.target) if isinstance(n, ast.Name)}
-    r2 = xfer.check_loop(g.node, l2, xv, {"pos"}, dedup_ok=False)
-    out.inst(g.key, {"loop": norm(l2).split(":")[0], "sinks": r2.sinks, "dropping_paths": len(r2.bad_paths)})
-    if not r2.sinks or r2.bad_paths:
-        out.report(CODE, g.dqual, "position table incomplete", l2.lineno, "block.__getitem__ does not record the end position of every instruction: slices at instruction boundaries are rejected or mis-cut")
+        # the table may be built by a comprehension over self.instr (here or in a method of block that __getitem__ calls):
+        # it is complete when the comprehension has no filter and its element is the instruction's length
+        bcls = repo.mod(CODE).classes.get("block")
+        nodes = [g.node] + [bcls.methods[c.func.attr].node for c in ast.walk(g.node) if isinstance(c, ast.Call) and isinstance(c.func, ast.Attribute) and isinstance(c.func.value, ast.Name) and c.func.value.id == "self" and bcls is not None and c.func.attr in bcls.methods]
+        comps = [(c, gen) for nd_ in nodes for c in ast.walk(nd_) if isinstance(c, (ast.GeneratorExp, ast.ListComp)) for gen in c.generators if norm(gen.iter) == "self.instr"]
+        if not comps:
+            raise AnalysisError("R-XFER: position loop vanished in block.__getitem__")
+        for c, gen in comps:
+            whole = not gen.ifs and any(isinstance(a, ast.Attribute) and a.attr == "length" for a in ast.walk(c.elt))
+            out.inst(g.key + "::comprehension@%d" % c.lineno, {"table": norm(c), "covers_every_instruction": whole})
+            if gen.ifs:
+                out.report(CODE, g.dqual, "position table incomplete", c.lineno, "block.__getitem__ does not record the end position of every instruction: slices at instruction boundaries are rejected or mis-cut")
+    else:
+        xv = {n.id for n in ast.walk(l2.target) if isinstance(n, ast.Name)}
+        r2 = xfer.check_loop(g.node, l2, xv, {"pos"}, dedup_ok=False)
+        out.inst(g.key, {"loop": norm(l2).split(":")[0], "sinks": r2.sinks, "dropping_paths": len(r2.bad_paths)})
+        if not r2.sinks or r2.bad_paths:
+            out.report(CODE, g.dqual, "position table incomplete", l2.lineno, "block.__getitem__ does not record the end position of every instruction: slices at instruction boundaries are rejected or mis-cut")
     # derived properties
     c = repo.mod(CODE).classes.get("block")
     for mname in ("length", "raw", "support", "address"):
